@@ -289,17 +289,7 @@ def run(ctx: Ctx):
         from .c03 import check_nested
 
         check_nested(ctx, "R01.h", nf)
-    eq = M.method("numpy", "_print_Equality")
-    if eq is None:
-        ctx.fail("R01.h", "numpy-printer::Equality::text", "numpy printer has no _print_Equality", "")
-    else:
-        et = util.text_of(ctx, eq)
-        ep_ = eq.params[-1]
-        wants_eq = ["({self._print(%s.args[0])} == {self._print(%s.args[1])})" % (ep_, ep_), "({self._print(%s.lhs)} == {self._print(%s.rhs)})" % (ep_, ep_)]
-        if et is None:
-            ctx.undecided("R01.h", "numpy-printer::Equality::text", "what _print_Equality returns is not understood", eq.where())
-        else:
-            ctx.check(et in wants_eq, "R01.h", "numpy-printer::Equality::text", "(lhs == rhs)", f"numpy printer: Equality is printed as `{et}`, not as (printed lhs == printed rhs)", eq.where())
+    printers.check_equality_text(ctx, "R01.h")
     hp = M.method("numpy", "_hprint_Pow")
     if hp is None:
         ctx.fail("R01.h", "numpy-printer::Pow::sqrt", "numpy printer has no _hprint_Pow: sympy prints math.sqrt", "")
